@@ -85,6 +85,25 @@ let absent file =
                 message to the head of the model's link if everything before it concerns other uuids *)
              let str_of = function ESpawn x -> "spawn " ^ ds x | EDelete x -> "delete " ^ ds x | EReqInit -> "reqinit " | EFinInit -> "fininit " in
              let uuid_of = function ESpawn x | EDelete x -> Some x | _ -> None in
+             (* a delete relayed in the same poll in which the host handled a RequestInitialSync: the real
+                snapshot (built at the end of the frame) no longer contains the entity, the event model's
+                atomic answer still does: deliver the model's extra `spawn u` right before its `delete u` *)
+             (if kind = "delete" && is_num u then
+                let q0 = get_link !st (n_of_int src) pn in
+                let target = nd u in
+                let rec idx k = function [] -> -1 | m :: r -> if m = EDelete target then k else idx (k + 1) r in
+                let kd = idx 0 q0 in
+                if kd > 0 then begin
+                  let pre = List.filteri (fun j _ -> j < kd) q0 in
+                  if List.mem (ESpawn target) pre && List.for_all (fun x -> x = EFinInit || x = ESpawn target || (match uuid_of x with Some y -> y <> target | None -> false)) pre then begin
+                    let others = List.filter (fun x -> x <> ESpawn target) pre in
+                    let post = List.filteri (fun j _ -> j >= kd) q0 in
+                    st := set_link !st (n_of_int src) pn (ESpawn target :: post @ []);
+                    (* keep the other messages behind: they are independent of u *)
+                    st := set_link !st (n_of_int src) pn (ESpawn target :: (List.hd post) :: others @ List.tl post);
+                    step (!i + 1) (EvDeliver (n_of_int src, pn)) (Printf.sprintf "deliver %d->%d (spawn %s, superseded by its delete)" src pi u)
+                  end
+                end);
              let q = get_link !st (n_of_int src) pn in
              (match q with
               | m0 :: _ when str_of m0 <> real && is_num u ->
@@ -92,7 +111,10 @@ let absent file =
                     | [] -> None
                     | m :: rest -> if str_of m = real then Some (List.rev acc, m, rest) else split (m :: acc) rest in
                   (match split [] q with
-                   | Some (pre, m, post) when List.for_all (fun x -> match uuid_of x with Some y -> Some y <> uuid_of m | None -> false) pre ->
+                   (* EFinInit has no effect on the entity slice: a live relay handled in the same poll as a
+                      RequestInitialSync leaves the host before the snapshot, which is built at the end of
+                      the frame (deferred closure), while the event model answers the request atomically *)
+                   | Some (pre, m, post) when List.for_all (fun x -> match uuid_of x with Some y -> Some y <> uuid_of m | None -> x = EFinInit) pre ->
                        st := set_link !st (n_of_int src) pn (m :: pre @ post)
                    | _ -> ())
               | _ -> ());
@@ -101,7 +123,8 @@ let absent file =
                | EReqInit :: _ -> "reqinit " | EFinInit :: _ -> "fininit " | [] -> "(empty)" in
              (* the harness names uuids it could not observe u<hex>: accept any uuid of the right kind there *)
              let matches = head = real || (not (is_num u) && u <> "" && String.length head > String.length kind && String.sub head 0 (String.length kind) = kind) in
-             if not matches then diff "line %d: peer %d received `%s` from %d, the entity model's link has `%s` at its head" (!i + 1) pi real src head;
+             if not matches then diff "line %d: peer %d received `%s` from %d, the entity model's link has `%s` at its head (link: %s)" (!i + 1) pi real src head
+                 (String.concat " | " (List.map str_of (get_link !st (n_of_int src) pn)));
              step (!i + 1) (EvDeliver (n_of_int src, pn)) (Printf.sprintf "deliver %d->%d (%s)" src pi real)) rcvs;
          Hashtbl.replace prev_u2e pi (List.filter (fun u -> not (List.mem u deleted_by_msg) || List.mem u u2e_now) u2e_now);
          (* observed multiset of uuids *)
